@@ -22,9 +22,12 @@ def register(db):
     db.contract(fn="Event.is_set", assumed=True, params=["self"], returns="bool", ensures={"flag": "result == self._flag"})
     db.contract(fn="Event.wait", assumed=True, is_async=True, params=["self"], ensures={"set": "self._flag == True"})
     db.shape("Task", {})
-    db.shape("TaskSet", {})
-    db.contract(fn="TaskSet.add", assumed=True, params=["self", "t"])
-    db.contract(fn="TaskSet.discard", assumed=True, params=["self", "t"])
+    db.shape("TaskSet", {"n": "int"})
+    db.contract(fn="TaskSet.add", assumed=True, params=["self", "t"], modifies=["self.n"], ensures={"n": "self.n == old(self.n) + 1"},
+                note="set.add of a task that has just been created (not yet a member)")
+    db.contract(fn="TaskSet.discard", assumed=True, params=["self", "t"], modifies=["self.n"], ensures={"n": "self.n == old(self.n) - 1"},
+                note="set.discard in the done-callback of a task that was added when it was created (a member)")
+    db.contract(fn="TaskSet.__len__", assumed=True, params=["self"], returns="int", ensures={"n": "result == self.n"})
     # a finished task as seen from its done-callback: it may have ended normally, with an exception, or cancelled
     db.contract(fn="Task.exception", assumed=True, params=["self"], returns="Optional[opaque]",
                 raises=[Raises("CancelledError", mode="may")],
